@@ -191,9 +191,9 @@ theorem Dec.pointer {buf : Bytes} {off target : Nat} {s : Name} {k o : Nat}
   rw [et, ed, h.2]
 
 /-- the reader the message decoder uses, from a `Dec` fact -/
-theorem getDomain_of_dec {buf off s k o} (h : Dec buf off s k o) (hs : s.length ≤ limit) :
-    getDomain buf off = .ok (s, o) := by
-  unfold getDomain nameFuel
+theorem getDomainInto_of_dec {buf off s k o} (h : Dec buf off s k o) (hs : s.length ≤ limit) :
+    getDomainInto buf (nameFuel buf) off 1 = .ok (s, o) := by
+  unfold nameFuel
   apply getDomainInto_mono buf _ _ _ _ h.2
   · have := h.1
     unfold limit at *
@@ -202,6 +202,14 @@ theorem getDomain_of_dec {buf off s k o} (h : Dec buf off s k o) (hs : s.length 
       Nat.mul_le_mul_right _ (by omega)
     omega
   · have := h.1; omega
+
+/-- the reader the message decoder uses, from a `Dec` fact -/
+theorem getDomain_of_dec {buf off s k o} (h : Dec buf off s k o) (hs : s.length ≤ limit)
+    (hw : wireLen s ≤ Generated.Dns.nameOctetLimit) :
+    getDomain buf off = .ok (s, o) := by
+  unfold getDomain
+  rw [getDomainInto_of_dec h hs]
+  simp only [show ¬ wireLen s > Generated.Dns.nameOctetLimit by omega, if_false]
 
 end Erbium.DnsWire
 
